@@ -604,8 +604,11 @@ def _summarise_array(sid, shape, dt, idx, prev, postv, iz, lo, hi, hv_consts, hv
     # both are closed forms of the same sum; like every summary they are validated by the loop:init / loop:step obligations
     dec = _decompose_store(postv, prev)
     if dec is not None:
-        cond, val = dec
-        inc = _subst_val(sv.sub(val, prev), [])
+        dec = (dec[0], _subst_val(sv.sub(dec[1], prev), []))
+    else:
+        dec = _decompose_guarded(_subst_val(sv.sub(postv, prev), []))
+    if dec is not None:
+        cond, inc = dec
         its = _terms_of(inc) + [cond]
         if not any(_contains_any(t, hv_consts, hv_funcs) for t in its):
             if not _mentions(cond, iz):
@@ -665,6 +668,36 @@ def _summarise_array(sid, shape, dt, idx, prev, postv, iz, lo, hi, hv_consts, hv
     if os.environ.get("PYVC_DEBUG_LOOPS"):
         print("LOOP-DEBUG post:", str(postv)[:1500], "\nprev:", str(prev)[:300])
     raise EngineError(f"array #{sid}: loop effect is neither an accumulation nor an affine scatter store — needs a written summary")
+
+
+def _is_zero(t):
+    return (z3.is_rational_value(t) and t.numerator_as_long() == 0) or (z3.is_int_value(t) and t.as_long() == 0)
+
+
+def _decompose_guarded(delta):
+    """delta == If(cond, e, 0) (componentwise with the same cond for complex; a component may be identically 0) -> (cond, e)"""
+    delta = norm(delta)
+    if isinstance(delta, Cx):
+        a, b = _decompose_guarded(delta.re), _decompose_guarded(delta.im)
+        za = is_conc(norm(delta.re)) and norm(delta.re) == 0
+        zb_ = is_conc(norm(delta.im)) and norm(delta.im) == 0
+        if a is not None and b is not None and a[0].eq(b[0]):
+            return a[0], Cx(a[1], b[1])
+        if a is not None and zb_:
+            return a[0], Cx(a[1], 0)
+        if b is not None and za:
+            return b[0], Cx(0, b[1])
+        return None
+    if not isinstance(delta, SV):
+        return None
+    t = delta.t
+    if z3.is_app(t) and t.decl().kind() == z3.Z3_OP_ITE:
+        c, x, y = t.children()
+        if _is_zero(y):
+            return c, sv.wrap(x)
+        if _is_zero(x):
+            return z3.Not(c), sv.wrap(y)
+    return None
 
 
 def _decompose_store(postv, prev):
